@@ -23,8 +23,10 @@ impl LintPass for OverlappingFunctionCheck {
             if node.functions().len() > 1 && node.is_function_entry_with_func().is_some() {
                 // HACK: Create a dummy label with the same name
                 let labels = node.labels();
+                let mut labels = labels.iter().collect::<Vec<_>>();
+                labels.sort();
                 let labels = labels
-                    .iter()
+                    .into_iter()
                     .map(|l| Label {
                         name: l.clone(),
                         key: Uuid::new_v4(),
@@ -34,9 +36,11 @@ impl LintPass for OverlappingFunctionCheck {
                 let label = labels.first();
 
                 if let Some(l) = label {
+                    let mut functions = node.functions().clone().into_iter().collect::<Vec<_>>();
+                    functions.sort_by_key(|f| f.name());
                     errors.push(LintError::NodeInManyFunctions(
                         ParserNode::Label(l.clone()),
-                        node.functions().clone().into_iter().collect::<Vec<_>>(),
+                        functions,
                     ));
                 }
             }
